@@ -53,8 +53,9 @@ func (p *c17plan) next(kind string) string {
 }
 
 type c17run struct {
-	slow       bool // still exchanging messages at the deadline: not judged
-	anchorMiss bool // the remote honestly found none of the anchors on its chain
+	slow       bool   // still exchanging messages at the deadline: not judged
+	wedged     string // type of the message whose handling never returned
+	anchorMiss bool   // the remote honestly found none of the anchors on its chain
 	added      []*types.Block
 	ancestor   *types.BlockInfo
 	stops      []error
@@ -75,6 +76,7 @@ func c17Session(t *rapid.T, s *Syncer, req *StubRequester, local, remote, foreig
 	notify := make(chan error, 4)
 	req.TellTo(message.SyncerSvc, &message.SyncStart{PeerID: targetPeerID, TargetNo: target, NotifyC: notify})
 	var late []interface{}
+	var lateNotBefore time.Time
 	flushLate := func() {
 		for _, m := range late {
 			req.TellTo(message.SyncerSvc, m)
@@ -90,7 +92,7 @@ func c17Session(t *rapid.T, s *Syncer, req *StubRequester, local, remote, foreig
 			lastActivity = time.Now()
 		case <-time.After(40 * time.Millisecond):
 			// quiet: release delayed answers; finished?
-			if len(late) > 0 {
+			if len(late) > 0 && time.Now().After(lateNotBefore) {
 				flushLate()
 				continue
 			}
@@ -136,6 +138,12 @@ func c17Session(t *rapid.T, s *Syncer, req *StubRequester, local, remote, foreig
 			hash, err := remote.GetHashByNo(m.BlockNo)
 			if d == "err" {
 				hash, err = nil, fmt.Errorf("injected")
+			}
+			if d == "late" {
+				// answered only after the finder has given up waiting (its timer is the fetch timeout)
+				late = append(late, &message.GetHashByNoRsp{Seq: m.Seq, BlockHash: hash, Err: err})
+				lateNotBefore = time.Now().Add(400 * time.Millisecond)
+				continue
 			}
 			req.TellTo(message.SyncerSvc, &message.GetHashByNoRsp{Seq: m.Seq, BlockHash: hash, Err: err})
 		case *message.GetHashes:
@@ -264,8 +272,34 @@ func c17Session(t *rapid.T, s *Syncer, req *StubRequester, local, remote, foreig
 					run.stops = append(run.stops, x.Err)
 				}
 			}
+			// the syncer's actor handles one message at a time: if handling one never returns, the syncer is dead
+			handle := func(m interface{}) bool {
+				handled := make(chan struct{})
+				go func() { s.handleMessage(m); close(handled) }()
+				select {
+				case <-handled:
+					return true
+				case <-time.After(20 * time.Second):
+					run.wedged = fmt.Sprintf("%T", m)
+					return false
+				}
+			}
+			if _, isStop := msg.(*message.SyncStop); isStop && s.isRunning && len(late) > 0 {
+				// a delayed answer that reached the mailbox just before the stop request a component sent on its timer
+				pend := late
+				late = nil
+				for _, lm := range pend {
+					if _, ok := lm.(*message.GetHashByNoRsp); ok && s.isRunning {
+						if !handle(lm) {
+							return false
+						}
+					}
+				}
+			}
 			if s.isRunning || isSyncStart(msg) {
-				s.handleMessage(msg)
+				if !handle(msg) {
+					return false
+				}
 			}
 		}
 		select {
@@ -338,7 +372,7 @@ func TestC17Sync(t *testing.T) {
 			drawList("blocks", []string{"never", "never", "late"})
 		} else {
 			drawList("ancestor", []string{"stale"})
-			drawList("hashbyno", []string{"err"})
+			drawList("hashbyno", []string{"err", "late"})
 			drawList("hashes", []string{"err", "short", "stale", "hole", "fork-switch"})
 			drawList("blocks", []string{"err", "short", "extra", "unlinked", "foreign", "never", "late", "late", "stale"})
 			drawList("addblock", []string{"err"})
@@ -372,6 +406,9 @@ func TestC17Sync(t *testing.T) {
 			fmt.Printf("TRACE ended=%v stops=%v best=%d %s\n", ended, run.stops, local.Best, where)
 		}
 		if !ended {
+			if run.wedged != "" {
+				t.Fatalf("VERIF-STALL the syncer's message handler did not return from a %s within 20 s: the actor is blocked for good\n%s", run.wedged, where)
+			}
 			t.Fatalf("VERIF-STALL the synchronisation is still running but has sent no request for %v (stops=%v)\n%s", c17Quiet, run.stops, where)
 		}
 		// ---- ordering of delivered blocks
